@@ -148,6 +148,8 @@ def run(unit_names, scratch, log):
     os.makedirs(env['CARGO_TARGET_DIR'], exist_ok=True)
     lock = open(os.path.join(env['CARGO_TARGET_DIR'], '.verif-lock'), 'w')
     fcntl.flock(lock, fcntl.LOCK_EX)   # concurrent checks of different trees share this target dir
+    import replay_search
+    replay_search.forget_crate(env['CARGO_TARGET_DIR'])
     for leg in mods:
         oid = 'kani.%s.contract' % leg['id']
         out['obligations'].append(dict(id=oid, item=leg['id'], kind='kani-contract', props=list(leg['props']),
@@ -196,8 +198,14 @@ def replay_real(leg, cex, repo, log=print):
         t += '\n#[cfg(test)]\nmod verif_replay {\n    ' + leg['uses'] + '\n' + _fill(leg['replay_test'], cex) + '\n}\n'
         open(lib, 'w').write(t)
         env = dict(os.environ, CARGO_NET_OFFLINE='true', CARGO_TARGET_DIR=os.path.join(VERIF, '.cache', 'replay-target'))
-        r = subprocess.run(['cargo', 'test', '--offline', '--lib', 'verif_replay', '--', '--nocapture'], cwd=tmp, env=env,
-                           capture_output=True, text=True)
+        import fcntl
+        import replay_search
+        os.makedirs(env['CARGO_TARGET_DIR'], exist_ok=True)
+        with open(os.path.join(env['CARGO_TARGET_DIR'], '.verif-lock'), 'w') as lk:
+            fcntl.flock(lk, fcntl.LOCK_EX)
+            replay_search.forget_crate(env['CARGO_TARGET_DIR'])
+            r = subprocess.run(['cargo', 'test', '--offline', '--lib', 'verif_replay', '--', '--nocapture'], cwd=tmp, env=env,
+                               capture_output=True, text=True)
         lines = [l for l in (r.stdout + r.stderr).splitlines() if 'VERIF-REPLAY' in l or 'panicked' in l or 'test result' in l]
         return r.returncode, lines
     finally:
